@@ -59,6 +59,10 @@ func genComponentFile(c *core.Ctx, idx int) (compDef, []model.Stmt) {
 	if r.Intn(2) == 0 {
 		stmts = append(stmts, model.Text{S: " outer="}, model.Print{E: model.Var{Name: "ds"}})
 	}
+	// a component is a block of its own: what it assigns stays inside it
+	if r.Intn(3) == 0 {
+		stmts = append(stmts, model.Assign{Name: "ds", E: model.StrLit{S: "set-inside-" + tag}}, model.Assign{Name: "clocal", E: model.Lit{V: model.Int(1)}}, model.Text{S: " now="}, model.Print{E: model.Var{Name: "ds"}})
+	}
 	for _, s := range def.slots {
 		stmts = append(stmts, model.Text{S: " [" + s + ":"}, model.SlotRef{Name: s}, model.Text{S: "]"})
 	}
@@ -95,6 +99,10 @@ func (cc *compCase) genUse(c *core.Ctx, def compDef, scopeVar string, forceNoSlo
 			}
 			ol.Keys = append(ol.Keys, a)
 			ol.Vals = append(ol.Vals, trID(v, site*10+ai))
+		}
+		if r.Intn(25) == 0 {
+			ol.Keys = append(ol.Keys, "loop")
+			ol.Vals = append(ol.Vals, model.StrLit{S: "mine"})
 		}
 		// keys in any source order
 		if len(ol.Keys) == 2 && r.Intn(2) == 0 {
@@ -163,6 +171,10 @@ func genComponentTree(c *core.Ctx, i int) *compCase {
 			default:
 				stmts = append(stmts, cc.genUse(c, def, "", false), model.Text{S: []string{"|", "\n", " ", "|"}[r.Intn(4)]})
 			}
+		}
+		stmts = append(stmts, model.Text{S: " after:"}, model.Print{E: model.Var{Name: "ds"}})
+		if r.Intn(6) == 0 {
+			stmts = append(stmts, model.Print{E: model.Var{Name: "clocal"}}) // never visible out here
 		}
 		cc.tree.files[name] = stmts
 		cc.pages = append(cc.pages, name)
